@@ -205,4 +205,37 @@ theorem C04_divide_product_cancel (K : Var → Nat) (f g : Factor) (hf : f.WF K)
   · simp
   · next hne => exact div_mul_cancel₀ _ hne
 
+theorem overrideL_perm (a : Asg) {ev ev' : List (Var × Nat)} (p : ev.Perm ev') :
+    (ev.map (·.1)).Nodup → ∀ w, overrideL a (ev.map (·.1)) (ev.map (·.2)) w
+      = overrideL a (ev'.map (·.1)) (ev'.map (·.2)) w := by
+  induction p with
+  | nil => intro _ _; rfl
+  | cons x _ ih =>
+    intro hn w
+    simp only [List.map_cons, overrideL]
+    rw [ih (List.nodup_cons.mp (by simpa using hn)).2 w]
+  | swap x y l =>
+    intro hn w
+    have hne : y.1 ≠ x.1 := by
+      have := (List.nodup_cons.mp (by simpa using hn : (y.1 :: x.1 :: l.map (·.1)).Nodup)).1
+      intro e; apply this; simp [e]
+    simp only [List.map_cons, overrideL]
+    by_cases h1 : w = x.1
+    · have : w ≠ y.1 := fun e => hne (e ▸ h1)
+      simp [h1, Ne.symm hne]
+    · simp [h1]
+  | trans p1 _ ih1 ih2 =>
+    intro hn w
+    rw [ih1 hn w, ih2 ((p1.map (·.1)).nodup_iff.mp hn) w]
+
+/-- **the order in which evidence is given is irrelevant**: reducing to the same (variable, state) pairs listed in
+    any order (a dict, a list of tuples, whatever iteration order) gives the same table -/
+theorem C04_reduce_order_irrelevant (K : Var → Nat) (f : Factor) (hf : f.WF K) (ev ev' : List (Var × Nat))
+    (p : ev.Perm ev') (hn : (ev.map (·.1)).Nodup) (a : Asg) (ha : Bounded K a) :
+    (reduce f ev).den a = (reduce f ev').den a := by
+  rw [C04_den_reduce K f hf ev a ha, C04_den_reduce K f hf ev' a ha]
+  congr 1
+  funext w
+  exact overrideL_perm a p hn w
+
 end PgmVerif
